@@ -28,6 +28,15 @@ CLAIMED = {
         note="float norm within 1e-6 of the limit not modelled; coordinates with three decimals so squared distances are exact",
         ref="DESIGN.md §4 C13",
     ),
+    "C02": dict(
+        text="Lean theorems about a names-level model of assign_termini / set_termini (hidden-chain loop included) and the specification formalCharge: a cyclic chain gets no termini; only flags and patch lists change; "
+        "in every peptide chain exactly the first residue gets one N-terminus patch and exactly the last one C-terminus patch with everything in between untouched; trailing waters/hetero groups are looked through; "
+        "with no hidden chain end set_termini is chain-wise (chain ids, numbering, order irrelevant); a neutral N-terminus shifts the formal charge by exactly -1; formal charges lie in [-2,2]. "
+        "Ties: the real set_termini on generated chain layouts (blank chains, internal OXT, trailing hetero residues, the cyclic test peptide, neutral flags) vs the model, flags and patch lists of every residue; "
+        "end to end residue.charge of every fully parameterised residue vs formalCharge evaluated by the driver, total = sum, PQR charge column = total.",
+        note="the cyclic test enters the model as an oracle bit logged from the real call; that a force field's numbers add up to the formal charge of a cell is checked on real runs for the cells reached, not by a kernel-checked table; no nucleic-acid structure offline",
+        ref="DESIGN.md §4 C02",
+    ),
     "C07": dict(
         text="Lean theorems about a model of read_pdb + Biomolecule.__init__ + residue constructors + drop_water: no ATOM/HETATM line skipped whatever surrounds it, "
         "trailing-column cuts parse identically, grouping is a permutation of the first model's atoms for every placement of TER/END/MODEL/other records, "
